@@ -133,6 +133,11 @@ func (p *forestPrinter) node(n *yaml.Node) {
 		a |= forestNodeExtra(n)
 	}
 	a |= nodeIntDecBit(n)
+	// inputs of diags.NewPositionRange beyond value/line/column (Run/C19.v node_block, node_anchor_len)
+	if n.Style&(yaml.LiteralStyle|yaml.FoldedStyle) != 0 {
+		a |= 1 << 10
+	}
+	a |= len(n.Anchor) << 16
 	var emb *yaml.Node
 	// parser.go parseNode only looks for YAML inside LITERAL block scalars (commit 147313f): the style condition is
 	// folded into the input, n_embedded is only provided where pint would call yaml.Unmarshal and succeed.
